@@ -62,21 +62,21 @@ type Step struct {
 }
 
 type Schedule struct {
-	Prog   int    `json:"prog"`   // index into the program list
-	Steps  []Step `json:"steps"`  //
-	Expect string `json:"expect"` // complete | stuck | "" (unknown)
-	Final  map[string]int `json:"final"` // counters expected at the end (informational wait)
+	Prog   int            `json:"prog"`   // index into the program list
+	Steps  []Step         `json:"steps"`  //
+	Expect string         `json:"expect"` // complete | stuck | "" (unknown)
+	Final  map[string]int `json:"final"`  // counters expected at the end (informational wait)
 }
 
 type Options struct {
-	T        time.Duration // bound for every awaited observation
-	StuckT   time.Duration // wait used when the schedule expects non-completion
-	Grace    time.Duration // surplus-trace grace period after the end
-	Lang     string
-	Seed     int64
-	Auto     bool // after the schedule: keep answering pending requests (random order) until completion
-	Perturb  int  // 0 none, 1 random delays at hooks
-	Defs     *schema.Definitions // optional pre-built definitions (round-trip checks)
+	T       time.Duration // bound for every awaited observation
+	StuckT  time.Duration // wait used when the schedule expects non-completion
+	Grace   time.Duration // surplus-trace grace period after the end
+	Lang    string
+	Seed    int64
+	Auto    bool                // after the schedule: keep answering pending requests (random order) until completion
+	Perturb int                 // 0 none, 1 random delays at hooks
+	Defs    *schema.Definitions // optional pre-built definitions (round-trip checks)
 }
 
 func DefaultOptions() Options {
@@ -90,13 +90,13 @@ type pendingReq struct {
 }
 
 type runner struct {
-	mu    sync.Mutex
-	cond  *sync.Cond
-	log   []Rec
-	cnt   map[string]int
-	reqs  map[string][]*pendingReq
-	run   int
-	p     *prog.Program
+	mu     sync.Mutex
+	cond   *sync.Cond
+	log    []Rec
+	cnt    map[string]int
+	reqs   map[string][]*pendingReq
+	run    int
+	p      *prog.Program
 	closed bool
 }
 
